@@ -239,7 +239,16 @@ def run(ctx):
             cfg = CONFIGS[(pi * ctx.nshards + ctx.shard) % len(CONFIGS)]
             size = rng.choice(["small", "medium", "medium", "large", "fixture"])
             ipt = rng.random() < 0.75
-            sc = LogixScenario(rng, size=size, config=cfg, init_program_tags=ipt)
+            project_ = None
+            if size != "fixture" and pi % 4 == 1:
+                # sizes at which a 16-bit field changes sign or is full: a member array and a string capacity of 32767 / 32768 / 40000 /
+                # 65535 elements (the template's array-length word is unsigned)
+                project_ = rpj.generate_project(rng, size, fw=cfg[1], micro800=cfg[2])
+                n_ = rng.choice([32767, 32768, 40000, 65535])
+                rpj.add_struct_tag(project_, rng, "BigArr_q", [("n", "DINT", 0), ("data", rng.choice(["SINT", "INT"]), n_), ("tail", "REAL", 0)], "bigarr_q")
+                rpj.add_string_tag(project_, rng, "BigStr_q", rng.choice([32767, 32768, 40000, 65535]), "bigstr_q")
+                res.count("projects-with-16-bit-boundary-sizes")
+            sc = LogixScenario(rng, size=size, config=cfg, init_program_tags=ipt, project=project_)
             res.count("uploads")
             res.count(f"page:{sc.dev.page_mode}")
             res.count(f"tmpl:{sc.dev.tmpl_frag}")
